@@ -64,6 +64,8 @@ ItemLists(sd) == LET vs == DopValues(sd) IN
 DopValues(d) ==
     IF "alpha" \in DOMAIN d THEN d.alpha ELSE      \* a data object may bring its own value alphabet
     CASE d.k = "simple" -> DctValues(d.dct)
+      [] d.k = "dtc" -> {IntV(d.codes[i]) : i \in 1..Len(d.codes)} \cup
+                        (IF Wrong THEN {IntV(d.codes[1] + 1), IntV(-1), Bad("float"), Bad("none"), Bad("list")} ELSE {})
       [] d.k = "struct" -> {DictV(a) : a \in Assignments(d.ps, 1)}
       [] d.k = "mux" -> UNION {IF c.st.k = "none" THEN {[t |-> "pair", a |-> c.n, b |-> DictV(<<>>)]}
                                 ELSE {[t |-> "pair", a |-> c.n, b |-> x] : x \in DopValues(c.st)} :
@@ -80,6 +82,7 @@ CanonDop(d, v) ==
     CASE d.k = "simple" -> (IF d.dct.k = "std" THEN CanonAtomic(d.dct, v, d.dct.bits)
                             ELSE IF d.dct.k = "paramlen" /\ d.dct.base \in {"uint", "int"} THEN CanonAtomic(d.dct, v, 32)
                             ELSE v)
+      [] d.k = "dtc" -> v
       [] d.k = "struct" -> CanonDict(d.ps, v)
       [] d.k = "mux" -> LET cs == {d.cases[i] : i \in 1..Len(d.cases)} \cup (IF d.hasdflt THEN {d.dflt} ELSE {})
                             c == CHOOSE x \in cs : x.n = v.a IN
